@@ -30,6 +30,7 @@ vars == <<init, header, rows, index, hist, ret>>
 
 I(s) == <<"i", s>>
 S(s) == <<"s", s>>
+None == <<"n", <<>>>>
 Tag(c) == c[1]
 Txt(c) == c[2]
 Digits == <<"0","1","2","3","4","5","6","7","8","9">>
@@ -51,7 +52,10 @@ Tables ==
                     <<S(<<"a">>),           I(<<"1">>), S(<<"k", "2">>)>>,
                     <<S(<<"x", ",", "y">>), I(<<"2">>), S(<<"k", "3">>)>> >>],
      [header |-> <<"k", "s">>,
-      rows   |-> << <<I(<<"1">>), S(<<"a">>)>>, <<I(<<"2">>), S(<<"a">>)>> >>]}
+      rows   |-> << <<I(<<"1">>), S(<<"a">>)>>, <<I(<<"2">>), S(<<"a">>)>> >>],
+     \* a missing value in a column that can be nominated as the index
+     [header |-> <<"s", "m">>,
+      rows   |-> << <<S(<<"a">>), I(<<"1">>)>>, <<S(<<"b">>), None>> >>]}
 
 (* the values assigned by AssignColumn: distinct ints 7, 8, ... *)
 NewValues(n) == [i \in 1..n |-> I(DecText(6 + i))]
